@@ -7,9 +7,13 @@ from . import fstree, walklib
 from .common import gstr, glist, gbool, coq_eval, parse_nested, pmap
 
 COQ_HEADER = """From Coq Require Import List NArith Bool.
-From FS Require Import lib.Str model.Walk model.WalkLinks.
+From FS Require Import lib.Str model.Walk model.WalkLinks proofs.LinksBase proofs.LinksOnce.
 Import ListNotations. Open Scope N_scope.
 Definition res_of (x : option lst) := match x with Some s => (1, l_out s, l_errs s) | None => (0, [], []) end.
+(* run with exactly the fuel the termination theorem promises to suffice; report whether the observed graph
+   meets the hypothesis of the once-per-directory theorem *)
+Definition run_g (g : fsgraph) (mx : N) (dfs : bool) (rp canon : str) (ino : N) :=
+  (res_of (lwalk g 0 mx dfs 0 (fuel_bound g) rp canon ino), if wf_graph g then 1 else 0).
 """
 
 
@@ -155,8 +159,7 @@ def run(ctx):
     for j in jobs:
         gt = graph_term(j["g"])
         rino = os.stat(j["root"]).st_ino
-        fuel = sum(len(e) for _, e in j["g"].values()) + len(j["g"]) + 5
-        exprs.append("res_of (lwalk %s 0 %d %s 0 %d%%nat %s %s %d)" % (gt, j["mx"], gbool(j["dfs"]), fuel, gstr(j["sp"]), gstr(os.path.realpath(j["root"])), rino))
+        exprs.append("run_g %s %d %s %s %s %d" % (gt, j["mx"], gbool(j["dfs"]), gstr(j["sp"]), gstr(os.path.realpath(j["root"])), rino))
     mres = coq_eval(COQ_HEADER, exprs, ctx.scratch, tag="c18", shard=6)
     st = dict(agreed=0, distinct=set(), samples=[], hist=collections.Counter())
     for j, (r, r0), mt in zip(jobs, res, mres):
@@ -191,7 +194,11 @@ def run(ctx):
                 ctx.violation("impl-violates-spec", "with `symlinks` the rows are not exactly one per entry of every reachable real directory (duplicates %s, missing %s)" % (dup, sorted(set(exp) - set(keys))[:5]),
                               input=case, observed=rows[:40])
                 continue
-        ok, mrows, merrs = parse_nested(mt)
+        ok, mrows, merrs, wf = parse_nested(mt)
+        if not wf:
+            ctx.violation("correspondence-mismatch", "the observed graph does not satisfy wf_graph (a directory entry whose inode differs from the inode of its listing)", input=case, concrete=False,
+                          correspondence="observed file-system graph vs the hypothesis wf_graph of C18_once")
+            continue
         mrows = ["".join(map(chr, x)) for x in mrows]
         if not ok or mrows != rows or merrs:
             ctx.violation("correspondence-mismatch", "row sequence differs from model.WalkLinks.lwalk", input=case, observed=rows[:40], model=mrows[:40], concrete=False,
